@@ -34,6 +34,9 @@ impl Check for C16 {
             (true, true) => run2::<f32>(src, obs),
         }
     }
+    fn regressions(&self) -> Vec<(&'static str, fn() -> Result<(), Fail>)> {
+        vec![("d1-right-notaknot-row", super::regress::d1_notaknot_right)]
+    }
     fn rule(&self) -> String {
         "data sampled from polynomials with small dyadic coefficients (a different polynomial per lane): affine for Linear, bilinear forms \
          a+bx+cy+dxy for Bilinear; for CubicSpline per lane a (left,right) pair drawn from the end conditions the polynomial satisfies: NotAKnot, \
